@@ -156,3 +156,18 @@ package signature
 //@   loop 1:
 //@     invariant len(readers) == len(old(s.Members)) && fresh(readers) && s.Members == old(s.Members)
 //@     invariant forall k int {old(s.Members)[k]} :: 0 <= k && k < len(old(s.Members)) ==> old(s.Members)[k].Type != nil
+
+// Object references and meta objects carried inside composites: the reader of the type description is
+// built from the documented signature of that very type (an object reference is a meta object followed
+// by the service and object ids; a reader built from the meta-object signature alone would stop 8
+// bytes early). (nosafety: both constructors ignore the parser's error for a constant signature.)
+//@ func NewObjectType() (result Type)
+//@   tags C02 C03
+//@   nosafety
+//@   modifies everything
+//@   call MakeReader#1: assert[C02,C03] arg0 == "(({I(Issss[(ss)<MetaMethodParameter,name,description>]s)<MetaMethod,uid,returnSignature,name,parametersSignature,description,parameters,returnDescription>}{I(Iss)<MetaSignal,uid,name,signature>}{I(Iss)<MetaProperty,uid,name,signature>}s)<MetaObject,methods,signals,properties,description>II)<ObjectReference,metaObject,serviceID,objectID>"
+//@ func NewMetaObjectType() (result Type)
+//@   tags C02 C03
+//@   nosafety
+//@   modifies everything
+//@   call MakeReader#1: assert[C02,C03] arg0 == MetaObjectSignature
